@@ -71,6 +71,9 @@ def check(spec):
     Ei = np.array(spec["Ei"])  # integer lists give integer-typed arrays, as in the repository's scripts
     Fi = np.array(spec["Fi"])
     law = getattr(mm, spec["law"])(Ei, Fi)
+    # other material laws exist in the same process (a second rod with other stiffnesses, constructed afterwards)
+    for other in ("Simo1986", "Harsch2021"):
+        getattr(mm, other)(np.array([3.0, 7.0, 11.0]) * 1.7, np.array([0.2, 0.9, 0.4]) * 2.3)
     if spec.get("reuse_arrays") and Ei.dtype == float and Fi.dtype == float:
         Ei *= spec["reuse_arrays"]
         Fi *= spec["reuse_arrays"]
